@@ -88,7 +88,8 @@ def do_run(sid, props):
     assert out.strip() == "", "/repo has uncommitted changes: " + out
     rc, out = sh(f"git apply {dst}/patch.diff", cwd="/repo")
     if rc != 0:
-        rc, out = sh(f"git apply -3 {dst}/patch.diff && git reset -q", cwd="/repo")
+        sh("git reset -q --hard HEAD", cwd="/repo")
+        rc, out = 1, out
     if rc != 0:
         print(sid, "patch does not apply", out[-300:])
         return
